@@ -259,12 +259,13 @@ def route(ctx: Any) -> List[Ob]:
     # unicast reply is built from the first packet's id and questions, under ucast_source = port != 5353
     # the flag handed to async_response / the unicast constructor: found by role, not by name
     ar = [c for c in walk_local_ordered(s.node) if isinstance(c, ast.Call) and call_name(c) == 'async_response']
-    flag = norm(ar[0].args[1]) if ar and len(ar[0].args) > 1 else '?'
-    us = [st for st in walk_local_ordered(s.node) if isinstance(st, ast.Assign) and isinstance(st.targets[0], ast.Name) and st.targets[0].id == flag]
+    from .common import expand as _xp
+
+    flag_e = _xp(s, ar[0].args[1]) if ar and len(ar[0].args) > 1 else None
     ok_us = False
-    if len(us) == 1 and isinstance(us[0].value, ast.Compare):
+    if isinstance(flag_e, ast.Compare):
         try:
-            p, op = lf.comparison(prog, s.module, us[0].value, lambda x: 'PORT' if isinstance(x, ast.Name) and x.id == p_port else None)
+            p, op = lf.comparison(prog, s.module, flag_e, lambda x: 'PORT' if isinstance(x, ast.Name) and x.id == p_port else None)
             ok_us = lf.same_cmp((p, op), lf.parse_cmp('PORT - 5353 != 0'))
         except lf.NotLinear:
             pass
